@@ -23,6 +23,8 @@ FORMULAS = {
     'F13': '=COUNT(A1:B2,C1)', 'F14': '=COUNTBLANK(A1:B2)', 'F15': '=COUNTBLANK(A1:B12)', 'F16': '=AND(A1,B1,C1)', 'F17': '=OR(A1,B1,C1)',
     'F18': '=SUM(A1:B1)', 'F19': '=SUM(A1:A2)', 'F20': '=SUM(A1:A2)+SUM(B1:B2)', 'F21': '=MIN(A1,B1:B2)', 'F22': '=MAX(5,A1:A2)',
     'F23': '=AVERAGE(A1,B1:B2)', 'F24': '=COUNTBLANK(A1,B1:B2)', 'F25': '=AND(A1:B1,C1)', 'F26': '=SUM(A1:B2)+SUM(T!A1:B2)', 'F27': '=SUM(A1:B2,A1:B2)', 'F28': '=AVERAGE(A1,A1,B1)', 'F29': '=COUNTBLANK(A1:B1,A1:B1)', 'F30': '=SUM(A1,A1,$A$1)',
+    'F31': '=COUNT(A1:A2,B1:B2)', 'F32': '=COUNT(A1:B1,A2,B2,5)', 'F33': '=COUNT(A1:A2,B1:B2,T!A1:A2)', 'F34': '=MIN(A1:A2,B1:B2)', 'F35': '=MAX(B1:B2,A1:A2)',
+    'F36': '=AVERAGE(A1:A2,B1:B2)', 'F37': '=COUNTBLANK(A1:A2,B1:B2)', 'F38': '=OR(A1:A2,B1:B2)', 'F39': '=COUNT(A1:A2,A1:A2)',
 }
 S = {'A1': 1, 'A2': 2, 'B1': 3, 'B2': 4, 'C1': 7, 'A3': 9}
 T = {'A1': 10, 'A2': 20, 'B1': 30, 'B2': 40, 'D1': '=SUM(A1:B2)', 'D2': '=COUNTBLANK(A1:B2)', 'D3': '=MAX(A1:B2)'}
@@ -109,6 +111,11 @@ def run(report, tier, seed):
     add('sum_same_area_twice', 'F27', f'2 * sum(nums({vec}))')
     add('sum_same_cell_three_spellings', 'F30', 'sum(nums([a1, a1, a1]))')
     add('countblank_same_area_twice', 'F29', 'len([v for v in [a1, b1, a1, b1] if v is None or v == ""])')
+    add('count_two_areas', 'F31', f'len(nums({vec}))')
+    add('count_area_cells_literal', 'F32', f'len(nums({vec})) + 1')
+    add('count_three_areas_other_sheet', 'F33', f'len(nums({vec})) + 2')
+    add('count_same_area_twice', 'F39', 'len(nums([a1, a2])) * 2')
+    add('countblank_two_areas', 'F37', f'len([v for v in {vec} if v is None or v == ""])')
     add('count_rect', 'F12', f'len(nums({vec}))')
     add('count_rect_and_cell', 'F13', f'len(nums({vec})) + 1')
     add('countblank_rect', 'F14', f'len([v for v in {vec} if v is None or v == ""])')
@@ -127,7 +134,8 @@ def run(report, tier, seed):
     # AVERAGE / MIN / MAX: empty fold -> an error value or an exception, never a number
     for name, cell, fold, vs in (('average_rect', 'F9', None, vec), ('min_rect', 'F10', 'min(n)', vec), ('max_rect', 'F11', 'max(n)', vec),
                                  ('min_scalar_and_area', 'F21', 'min(n)', '[a1, b1, b2]'), ('average_scalar_and_area', 'F23', None, '[a1, b1, b2]'),
-                                 ('average_same_cell_twice', 'F28', None, '[a1, a1, b1]')):
+                                 ('average_same_cell_twice', 'F28', None, '[a1, a1, b1]'),
+                                 ('min_two_areas', 'F34', 'min(n)', '[a1, a2, b1, b2]'), ('max_two_areas', 'F35', 'max(n)', '[b1, b2, a1, a2]'), ('average_two_areas', 'F36', None, '[a1, a2, b1, b2]')):
         # AVERAGE is compared through got * count == sum (no symbolic division in the oracle)
         cmp_ = f"o == ('val', {fold})" if fold else "o[0] == 'val' and o[1][0] == 'AVG' and sorted(o[1][1]) == sorted(n)"
         s.add(name, sig4, pre4, f'''
